@@ -1397,6 +1397,25 @@ def run_c17(ctx) -> Corr:
         cases.append((ops, {"source": "fault-grid"}))
     for _ in range(1500 if tier == "quick" else 20000):
         cases.append((fault_case(rng), {"source": "fault-random"}))
+    # The property says what happens before a connection exists, while it exists, and that disconnecting absorbs OS-level
+    # errors; it says nothing about reading from, writing to or disconnecting a transport AFTER it was disconnected (an
+    # implementation may keep the closed stream objects, as today, or forget them and answer "not connected").  Such
+    # operations are therefore left out of every sequential case: after a `disc` only observations of the harness's own
+    # stream (`out`) are kept, until a new connection is opened.
+    dropped_after_disconnect = 0
+    for idx, (ops, info) in enumerate(cases):
+        kept, after = [], False
+        for op in ops:
+            if op[0] in ("tnew", "snew", "conn"):
+                after = False
+            elif after and op[0] != "out":
+                dropped_after_disconnect += 1
+                continue
+            kept.append(op)
+            if op[0] == "disc":
+                after = True
+        cases[idx] = (kept, info)
+    corr.count("operations on a disconnected transport left out (outside the property's quantifier)", dropped_after_disconnect)
     # (d) concurrent use of one connection (own generator stream: the cases above stay what they were)
     ccases = concurrent_cases(lib.rng_for(ctx.seed, "c17-concurrent"), tier)
     cresults: list[tuple] = []
